@@ -40,3 +40,50 @@ PROPS['C06'] = {
         dict(name='mutex_T3_S1', kernel='C06_mutex.cpp', prefix='mx_', mode='res', lower_defs=['-DNTHREADS=3', '-DNSEC=1'], shim='shim_sync', inline=20000, R=3, BMAX=60, unwind=3, tiers=('thorough',), timeout=6000),
     ],
 }
+
+SYNC_ASSUMPTIONS = [
+    'Agent = stub implementation of the public agent_base interface: suspend blocks until a resume token is deposited; yield/yield_k/spin_k = one polling step; '
+    'sleep_until returns when resumed or, nondeterministically and monotonically, because the deadline passed (time is symbolic).',
+    'pika::concurrency::detail::spinlock used as the INTERNAL lock of the primitive is replaced by its contract (acquire = one visible, blocking operation; release = plain store); '
+    'the real spinlock.hpp is verified separately under C06 (assume-guarantee layering).',
+    'Task identity: one distinct non-null thread id per harness thread; error back end (throw_exception/throws_if) and PIKA_ASSERT message formatting stubbed (codes and control flow kept).',
+    'IR is lowered with a high inlining threshold (-mllvm -inline-threshold=20000), which changes no semantics but removes ABI-level pointer/integer coercions.',
+]
+PROPS['C06']['assumptions'] = SYNC_ASSUMPTIONS
+
+PROPS['C08'] = {
+    'assumptions': SYNC_ASSUMPTIONS + ['counting_semaphore<>: initial count in [0,2], release(n) with n in [1,2], 2 operations per thread.'],
+    'queries': [
+        dict(name='sem_T2_K2', kernel='C08_semaphore.cpp', prefix='csem_', mode='res', lower_defs=['-DNTHREADS=2'], shim='shim_sync', inline=20000, R=3, BMAX=60, unwind=3,
+             unwindset=['csem_final__step.0:10'], covers=[0], timeout=2400),
+    ],
+}
+
+PROPS['C14'] = {
+    'assumptions': SYNC_ASSUMPTIONS + [
+        'Histories: <= HIST_K operations over 3 stop_source slots, 2 stop_token slots, <= 3 stop states; reference model = per-state count of live sources + stop flag.',
+        'Concurrent: two request_stop callers and one thread constructing/destroying a stop_callback whose body yields; thread identities (pika task / plain OS thread) symbolic.',
+    ],
+    'queries': [
+        dict(name='stop_hist_k5', kernel='C14_stop_token.cpp', prefix='hist_', mode='seq', shim='shim_sync', inline=20000, unwind=6, lower_defs=['-DHIST_K=5'], covers=[0], timeout=1800),
+        dict(name='stop_race_T3', kernel='C14_stop_token.cpp', prefix='cc_', mode='res', shim='shim_sync', inline=20000, R=3, BMAX=60, unwind=3, covers=[0], timeout=2400),
+    ],
+}
+
+PROPS['C11'] = {
+    'assumptions': [
+        'Scenario A (arithmetic): real bulk_receiver::get_chunk_size, init_queue and the index queue; the operation state is built field by field (no thread pool); the three lines of '
+        'set_value combining them are repeated in the kernel. W in [1,64] symbolic for get_chunk_size; one query per constant W for the tiling (division by a constant).',
+        'Termination of get_chunk_size is an obligation (unwinding assertion at 34 iterations: the chunk size doubles, so more than 33 iterations means it wrapped to 0 and the loop never ends).',
+    ],
+    'queries': [
+        dict(name='chunk_u32_all', kernel='C11_bulk.cpp', prefix='chunk_', mode='seq', inline=20000, unwind=34, lower_defs=['-DSHAPE=std::uint32_t'], params=[0, 0], covers=[0], unwind_obligation=True),
+        dict(name='chunk_u32_le2p31', kernel='C11_bulk.cpp', prefix='chunk_', mode='seq', inline=20000, unwind=34, lower_defs=['-DSHAPE=std::uint32_t'], params=[0, 1], covers=[0], unwind_obligation=True),
+        dict(name='chunk_u64_all', kernel='C11_bulk.cpp', prefix='chunk_', mode='seq', inline=20000, unwind=34, lower_defs=['-DSHAPE=std::uint64_t'], params=[0, 0], unwind_obligation=True),
+        dict(name='chunk_u64_le2p31', kernel='C11_bulk.cpp', prefix='chunk_', mode='seq', inline=20000, unwind=34, lower_defs=['-DSHAPE=std::uint64_t'], params=[0, 1], unwind_obligation=True),
+        dict(name='chunk_i32_le2p31', kernel='C11_bulk.cpp', prefix='chunk_', mode='seq', inline=20000, unwind=34, lower_defs=['-DSHAPE=std::int32_t'], params=[0, 1], unwind_obligation=True),
+    ] + [
+        dict(name='tile_u32_W%d' % w, kernel='C11_bulk.cpp', prefix='tile_', mode='seq', inline=20000, unwind=34, lower_defs=['-DSHAPE=std::uint32_t'], params=[w], covers=[0],
+             partial_loops_assume=True, timeout=1200, tiers=('quick', 'thorough') if w in (1, 2, 3) else ('thorough',)) for w in (1, 2, 3, 4, 5, 7, 8, 16)
+    ],
+}
